@@ -1894,6 +1894,20 @@ package desync
 //# the tree walker hands tar() entries whose Path is in cleaned form (path.Clean of the walked path): tar() decides
 //# which directory an entry belongs to by comparing path.Dir of it with the directory's path, which only works
 //# on cleaned paths - a root spelled "dir/" or "./dir" would otherwise produce an archive of an empty root
+//# F34: the tree walker's callback hands every entry it is called for to the archiver, except a directory on another
+//# filesystem under --one-file-system - and that one is skipped as a whole (SkipDir): returning nil for it would make
+//# the walk descend into it, its children would arrive without their parent and tar() would close every open
+//# directory at the first of them - an archive that silently ends at the mount point
+//@ ghost var $sentEntry bool
+//@ func (fs *LocalFS) startSerializer
+//@   prop C05 C13
+//@   safety none
+//@   lit 1: lit 1: ghost@entry $sentEntry = false
+//@   lit 1: lit 1: ghost@send:fs.entries $sentEntry = true
+//@   lit 1: lit 1: ensures r0 == nil ==> $sentEntry
+//@   lit 1: lit 1: ensures r0 != nil ==> !$sentEntry
+//@   lit 1: lit 1: ensures r0 != nil ==> r0 == filepath.SkipDir
+
 //@ ghost var $cl string
 //@ ghost var $cleaned bool
 //@ func (fs *LocalFS) Next
